@@ -926,6 +926,14 @@ func (m *Matcher) checkLabels(st state, w, r Node, wl, rl string, wfr, rfr *fram
 			m.fail("dropped", w, r, wfr, rfr, "field %s is written but the reader discards the value read at this position", wl)
 			return
 		}
+		// read into a local that only steers the decoding and is never stored into any field of the
+		// object: the field itself comes back with its constructor default
+		if rp, ok := r.(*Prim); ok && rl == "" && rfr != nil && rfr.parent == nil && wfr != nil && wfr.parent == nil {
+			if obj, isObj := rp.Bind.(types.Object); isObj && isLocalVar(obj) && !m.localReachesField(rfr, obj) && m.fieldNeverSet(rfr, wl) {
+				m.fail("dropped", w, r, wfr, rfr, "field %s is written, but the reader keeps the value in the local %s and never stores it into the object: the decoded object has the constructor's %s, not the one that was written", wl, obj.Name(), strings.TrimPrefix(wl, "recv."))
+				return
+			}
+		}
 		if isFieldLabel(rl) {
 			m.Res.Labels++
 			if wl != rl {
@@ -2890,4 +2898,94 @@ func namedOfType(t types.Type) *types.Named {
 	}
 	n, _ := t.(*types.Named)
 	return n
+}
+
+// localReachesField: somewhere in the frame's function the local (possibly converted) is assigned to a
+// field, an element, or handed to a call (a setter) — anything that can carry it into the object.
+func (m *Matcher) localReachesField(fr *frame, obj types.Object) bool {
+	body := fr.ctx.FI.Decl.Body
+	if body == nil {
+		return true
+	}
+	info := fr.ctx.Info
+	uses := func(e ast.Expr) bool {
+		found := false
+		ast.Inspect(e, func(n ast.Node) bool {
+			if id, ok := n.(*ast.Ident); ok && info.ObjectOf(id) == obj {
+				found = true
+			}
+			return !found
+		})
+		return found
+	}
+	reaches := false
+	ast.Inspect(body, func(n ast.Node) bool {
+		switch v := n.(type) {
+		case *ast.AssignStmt:
+			for i, l := range v.Lhs {
+				if i >= len(v.Rhs) {
+					break
+				}
+				if _, isIdent := ast.Unparen(l).(*ast.Ident); isIdent {
+					continue
+				}
+				if uses(v.Rhs[i]) {
+					reaches = true
+				}
+			}
+		case *ast.CallExpr:
+			if tv, ok := info.Types[v.Fun]; ok && tv.IsType() {
+				return true
+			}
+			for _, a := range v.Args {
+				if uses(a) {
+					// a call on the stream (in.ReadBytes(n)) does not store the value
+					if sel, ok := v.Fun.(*ast.SelectorExpr); ok {
+						if tv, ok := info.Types[sel.X]; ok && m.X.IsStream(tv.Type) {
+							continue
+						}
+					}
+					if id, ok := v.Fun.(*ast.Ident); ok && (id.Name == "make" || id.Name == "len" || id.Name == "panic") {
+						continue
+					}
+					reaches = true
+				}
+			}
+		case *ast.ReturnStmt:
+			for _, e := range v.Results {
+				if uses(e) {
+					reaches = true
+				}
+			}
+		}
+		return true
+	})
+	return reaches
+}
+
+// fieldNeverSet: the reader function never assigns the field named by the label (recv.F).
+func (m *Matcher) fieldNeverSet(fr *frame, label string) bool {
+	body := fr.ctx.FI.Decl.Body
+	if body == nil || fr.ctx.Recv == nil {
+		return false
+	}
+	info := fr.ctx.Info
+	name := strings.TrimPrefix(label, "recv.")
+	if strings.Contains(name, ".") {
+		return false
+	}
+	set := false
+	ast.Inspect(body, func(n ast.Node) bool {
+		if as, ok := n.(*ast.AssignStmt); ok {
+			for _, l := range as.Lhs {
+				if sel, ok := ast.Unparen(l).(*ast.SelectorExpr); ok && sel.Sel.Name == name {
+					if id, ok := ast.Unparen(sel.X).(*ast.Ident); ok && info.ObjectOf(id) == fr.ctx.Recv {
+						set = true
+					}
+				}
+			}
+		}
+		return true
+	})
+	return !set
 }
